@@ -270,6 +270,8 @@ def _run_stack(case, T, rng, g, dtype, base):
     for k in union:
         want = np.stack([_np(d[k]) if k in d else np.zeros(tuple(k.shape)) for d in dicts])
         absent |= any(k not in d for d in dicts)
+        if res[k].dtype != k.dtype:
+            return _fail(base, "C15.Stack", f"Stack: the stacked tensor has dtype {res[k].dtype}, the key has {k.dtype}")
         if tuple(res[k].shape) != want.shape or not np.array_equal(_np(res[k]), want):
             return _fail(base, "C15.Stack", f"Stack: rows of a key of shape {tuple(k.shape)} are not the per-transform "
                                             "gradients in order, zeros where absent", res[k], want)
@@ -446,6 +448,9 @@ def _run_grad(case, T, rng, g, dtype, base):
         T.Gradients({o: cot[o] for o in _shuffled(rng, outputs)}))
     if type(res) is not T.Gradients or set(map(id, res.keys())) != set(map(id, inputs)):
         return _fail(base, "C15.Grad", "Grad: wrong output type or key set")
+    for i, x in enumerate(inputs):
+        if res[x].dtype != x.dtype:
+            return _fail(base, "C15.Grad", f"Grad: the gradient of input {i} has dtype {res[x].dtype}, the input has {x.dtype}")
     rtol, atol = _tols(dtype, float(J.abs().max()) * J.shape[0])
     for i, (x, w) in enumerate(zip(inputs, want)):
         if not gen.close(res[x], w, rtol, atol):
@@ -488,6 +493,10 @@ def _run_jac(case, T, rng, g, dtype, base):
     if type(res) is not T.Jacobians or set(map(id, res.keys())) != set(map(id, inputs)):
         return _fail(base, "C15.Jac", "Jac: wrong output type or key set")
     rtol, atol = _tols(dtype, float(J.abs().max()) * J.shape[0])
+    for i, x in enumerate(inputs):
+        if res[x].dtype != x.dtype:   # a Jacobian computed in another precision is not "the same as Grad row by row"
+            return _fail(base, "C15.Jac", f"Jac: the Jacobian of input {i} has dtype {res[x].dtype}, the input has {x.dtype}",
+                         str(res[x].dtype), str(x.dtype))
     for i, (x, w) in enumerate(zip(inputs, want)):
         if not gen.close(res[x], w, rtol, atol):
             return _fail(base, "C15.Jac", f"Jac: value for input {i} (shape {tuple(x.shape)}) is not cotangents @ "
